@@ -82,7 +82,8 @@ func main() {
 		for i := 0; i < a.N; i++ {
 			cr := r.Fork()
 			if i%5 == 1 || i%5 == 3 {
-				ins = append(ins, input{Kind: "backend", Backend: genBackend(cr, i/5)})
+				// the first backend cases of a run enumerate fixed matrices (see genBackend)
+				ins = append(ins, input{Kind: "backend", Backend: genBackend(cr, 2*(i/5)+i%5/3)})
 			} else {
 				ins = append(ins, input{Kind: "sender", Sender: genSender(cr)})
 			}
